@@ -198,6 +198,13 @@ type loopGhost struct {
 	labels []string
 }
 
+func (lg *loopGhost) label(n int) string {
+	if n < len(lg.labels) && lg.labels[n] != "" {
+		return lg.labels[n]
+	}
+	return fmt.Sprint(n)
+}
+
 type Frame struct {
 	x      *Exec
 	fn     *ssa.Function
@@ -692,6 +699,13 @@ func (fr *Frame) registerGhost(c *ssa.Call, kind string, st *State) {
 	switch kind {
 	case "Invariant", "RangeInvariant":
 		lg.invs = append(lg.invs, &clo)
+		label := ""
+		if len(c.Call.Args) > 1 {
+			if k, ok := c.Call.Args[1].(*ssa.Const); ok && k.Value != nil {
+				label = strings.Trim(k.Value.ExactString(), `"`)
+			}
+		}
+		lg.labels = append(lg.labels, label)
 	case "Decreases":
 		lg.decs = append(lg.decs, &clo)
 	}
